@@ -28,7 +28,10 @@ CONSTANTS
     SkipChoices,    \* set of <<porg, pend, sorg, send>>
     DevFirstWins,   \* deviation: at a tie the FIRST (oldest) source decides (not the code)
     DevFastNoSecond,\* deviation: fast path ignores secondMin/secondMax (not the code)
-    DevNoReseek     \* deviation: modification of the mutable layer is not noticed (not the code)
+    DevNoReseek,    \* deviation: modification of the mutable layer is not noticed (not the code)
+    AllowMoved,     \* TRUE: commits onto a state that moved on since the snapshot (CommitMoved)
+    InPlaceCommit   \* TRUE: UpdateWith changes the Overlay object in place, as at the pinned commit
+                    \* (finding F17); FALSE: it returns a new object (the repaired code)
 
 U == [np |-> NP, ns |-> NS]
 K == NP * NS
@@ -41,9 +44,11 @@ VARIABLES
     rd,       \* read ranges reported by the last Next/Prev: sequence of <<lo, hi>>
     req,      \* keys the last step had to cover
     nextOff,  \* next fresh record offset
-    steps
+    steps,
+    frozen,   \* TRUE: the iterators of oi still read the sources they were built on (iv)
+    iv        \* although the Overlay object now has other layers (in-place commit)
 
-vars == <<c, oi, ref, rd, req, nextOff, steps>>
+vars == <<c, oi, ref, rd, req, nextOff, steps, frozen, iv>>
 
 ----------------------------------------------------------------------------
 (* sources of the per-layer iterators: index 1 = btree, then layers, then mut *)
@@ -227,23 +232,25 @@ Init == /\ c \in {x \in InitContents : WellFormed(U, x)}
         /\ rd = <<>> /\ req = {}
         /\ nextOff = 3
         /\ steps = 0
+        /\ frozen = FALSE /\ iv = c
 
 Step == steps < MaxSteps /\ steps' = steps + 1
+Keep == UNCHANGED <<frozen, iv>>
 Quiet == rd' = <<>> /\ req' = {}
 
 \* a new Overlay object: the iterator will notice by pointer comparison
-NewObject == oi' = [oi EXCEPT !.stale = TRUE]
+NewObject == oi' = [oi EXCEPT !.stale = TRUE] /\ frozen' = FALSE /\ iv' = iv
 \* the mutable layer was modified: its iterator (the last) reports Modified
 MutTouched == oi' = IF ~oi.stale /\ Len(oi.its) > 0
                     THEN [oi EXCEPT !.its[Len(oi.its)].mod = TRUE] ELSE oi
 
-MutInsert(k) == /\ Step /\ c.hasMut /\ Live(c, k) = 0
+MutInsert(k) == /\ Step /\ Keep /\ c.hasMut /\ Live(c, k) = 0
                 /\ c' = MutPut(c, k, Add(nextOff)) /\ nextOff' = nextOff + 1
                 /\ MutTouched /\ Quiet /\ UNCHANGED ref
-MutUpdate(k) == /\ Step /\ c.hasMut /\ Live(c, k) > 0
+MutUpdate(k) == /\ Step /\ Keep /\ c.hasMut /\ Live(c, k) > 0
                 /\ c' = MutPut(c, k, Upd(nextOff)) /\ nextOff' = nextOff + 1
                 /\ MutTouched /\ Quiet /\ UNCHANGED ref
-MutDelete(k) == /\ Step /\ c.hasMut /\ Live(c, k) > 0
+MutDelete(k) == /\ Step /\ Keep /\ c.hasMut /\ Live(c, k) > 0
                 /\ c' = MutPut(c, k, Del(Live(c, k)))
                 /\ MutTouched /\ Quiet /\ UNCHANGED <<ref, nextOff>>
 \* first write of the transaction: ov.Mutable() is a new object with an empty mut
@@ -251,9 +258,28 @@ MakeMutable == /\ Step /\ ~c.hasMut
                /\ c' = MutableOp(U, c)
                /\ NewObject /\ Quiet /\ UNCHANGED <<ref, nextOff>>
 \* commit: UpdateWith changes the transaction's Overlay in place (same object)
-Commit == /\ Step /\ c.hasMut /\ Len(c.layers) < MaxLayers
+Commit == /\ Step /\ Keep /\ c.hasMut /\ Len(c.layers) < MaxLayers
           /\ c' = CommitOnto(U, c, c)
           /\ Quiet /\ UNCHANGED <<oi, ref, nextOff>>
+\* commit onto a state that moved on: another transaction's layer (one entry for a key this
+\* transaction did not touch, as the checker guarantees) was committed since the snapshot.
+\* With InPlaceCommit the Overlay object is the same, so the iterator does not notice and
+\* keeps reading the snapshot's layers plus the (now immutable) mutable layer.
+CommitMoved(k) ==
+    /\ AllowMoved /\ Step /\ c.hasMut /\ Len(c.layers) < MaxLayers
+    /\ c.mut[k].op = "none"
+    /\ \E e \in (IF Live(c, k) = 0 THEN {Add(nextOff)} ELSE {Upd(nextOff), Del(Live(c, k))}) :
+         c' = [bt |-> c.bt,
+               layers |-> c.layers \o <<[EmptyLayer(U) EXCEPT ![k] = e]>> \o <<c.mut>>,
+               hasMut |-> FALSE, mut |-> EmptyLayer(U)]
+    /\ nextOff' = nextOff + 1
+    /\ IF InPlaceCommit
+       THEN /\ oi' = oi
+            /\ frozen' = ~oi.stale /\ iv' = CommitOnto(U, c, c)
+       ELSE /\ oi' = [oi EXCEPT !.stale = TRUE]
+            /\ frozen' = FALSE /\ iv' = iv
+    /\ Quiet /\ UNCHANGED ref
+
 Merge(n) == /\ Step /\ ~c.hasMut /\ n < Len(c.layers)
             /\ c' = MergeOp(U, c, n)
             /\ NewObject /\ Quiet /\ UNCHANGED <<ref, nextOff>>
@@ -262,27 +288,29 @@ Save == /\ Step /\ ~c.hasMut
         /\ c' = SaveOp(U, c)
         /\ NewObject /\ Quiet /\ UNCHANGED <<ref, nextOff>>
 
-ItNext == /\ Step
-          /\ LET res == OiNext(c, oi) ref2 == RefNext(U, c, ref) IN
+\* the content the iterators actually read
+Seen == IF frozen /\ ~oi.stale THEN iv ELSE c
+ItNext == /\ Step /\ Keep
+          /\ LET res == OiNext(Seen, oi) ref2 == RefNext(U, c, ref) IN
                /\ oi' = res.o /\ rd' = res.rd
                /\ ref' = ref2
                /\ req' = IF ref.st = "eof" THEN {} ELSE NextReadReq(U, ref, ref2)
           /\ UNCHANGED <<c, nextOff>>
-ItPrev == /\ Step
-          /\ LET res == OiPrev(c, oi) ref2 == RefPrev(U, c, ref) IN
+ItPrev == /\ Step /\ Keep
+          /\ LET res == OiPrev(Seen, oi) ref2 == RefPrev(U, c, ref) IN
                /\ oi' = res.o /\ rd' = res.rd
                /\ ref' = ref2
                /\ req' = IF ref.st = "eof" THEN {} ELSE PrevReadReq(U, ref, ref2)
           /\ UNCHANGED <<c, nextOff>>
-ItRewind == /\ Step /\ oi.st # "rewound"
+ItRewind == /\ Step /\ Keep /\ oi.st # "rewound"
             /\ oi' = OiRewind(oi) /\ ref' = RefRewind(ref)
             /\ Quiet /\ UNCHANGED <<c, nextOff>>
-ItRange(rg) == /\ Step
+ItRange(rg) == /\ Step /\ Keep
                /\ LET r == RangeOf(U, rg[1], rg[2]) IN
                     /\ r # oi.r \/ oi.st # "rewound"
                     /\ oi' = OiSetRange(oi, r) /\ ref' = RefSetRange(ref, r)
                /\ Quiet /\ UNCHANGED <<c, nextOff>>
-ItSkip(sk) == /\ Step
+ItSkip(sk) == /\ Step /\ Keep
               /\ LET r == SkipOf(sk[1], sk[2], sk[3], sk[4]) IN
                    /\ r # oi.r \/ oi.st # "rewound"
                    /\ oi' = OiSetRange(oi, r) /\ ref' = RefSetRange(ref, r)
@@ -290,6 +318,7 @@ ItSkip(sk) == /\ Step
 
 Next == \/ \E k \in KeySet(U) : MutInsert(k) \/ MutUpdate(k) \/ MutDelete(k)
         \/ MakeMutable \/ Commit \/ Save
+        \/ \E k \in KeySet(U) : CommitMoved(k)
         \/ \E n \in 1..(MaxLayers - 1) : Merge(n)
         \/ ItNext \/ ItPrev \/ ItRewind
         \/ \E rg \in RangeChoices : ItRange(rg)
